@@ -1,14 +1,17 @@
-/* Solver-side memcpy / bcmp / memcmp for the C13 'names' unit (Unit(extra_c=...)).
+/* Solver-side memcpy / bcmp / memcmp for the C13 'names' units (Unit(extra_c=...)).
  * clang -O1 turns the prefix / suffix copy loops of InstNameUtils::decode_to_buffer into memcpy(name, string_table + k, n) with a
  * symbolic k and n; String::append copies the decoded name with a symbolic length as well. CBMC's built-in model expresses such a copy
  * as a whole-array replacement, which sends the constant name tables into the array theory (out of memory after the first query). The
- * plain byte loops below are what the source code had; their bounds come from --unwind (names are at most 32 characters).
+ * plain byte loop below is what the source code had. It is used for copies into the 32..48-byte name buffers (selected by the size of
+ * the destination object, a constant for the solver; loop memcpy.0, bound: longest name + 1); every other copy (a64 string_to_inst_id
+ * copies the 106-byte InstNameIndex, StringTmp<32> in its linear scan) keeps CBMC's own model, which is exact for constant lengths.
  * The native twins use libc: the file is empty unless __CPROVER__ is defined. */
 #ifdef __CPROVER__
 #include <stddef.h>
 void* memcpy(void* d, const void* s, size_t n) {
   unsigned char* p = (unsigned char*)d; const unsigned char* q = (const unsigned char*)s;
-  for (size_t i = 0; i < n; i++) p[i] = q[i];
+  if (__CPROVER_OBJECT_SIZE(d) <= 64) { for (size_t i = 0; i < n; i++) p[i] = q[i]; }
+  else if (n > 0) { char src_n[n]; __CPROVER_array_copy(src_n, (char*)s); __CPROVER_array_replace((char*)d, src_n); }   /* = CBMC's own model */
   return d;
 }
 int memcmp(const void* a, const void* b, size_t n) {
